@@ -145,6 +145,18 @@ def check(ctx, rep):
 
     rep.rule("R-PROBE", "library code that handles a future it was given never uses hasattr/getattr on it with a name outside the Future API (a proxy would forward the lookup to the awaited result)")
     probe_rule(ctx, rep, "R-PROBE")
+    # "the wrapper still mirrors f's outcome" / "raises f's exception if f failed": NoCancelFuture and ProxyFuture are
+    # map futures with the identity function, so their rows of the map table (input cancelled / value / failed) are
+    # part of this property (shared with C13)
+    from . import c13
+    from ..core import Report
+    sub = Report(rep.pid, ctx)
+    c13.check(ctx, sub)
+    rep.rule("R-MIRROR", "NoCancelFuture / ProxyFuture rows of the map table: input cancelled -> cancelled, value -> the same value, failed -> the same exception")
+    for o in sub.obs:
+        k = o.key
+        if k.split(":")[0].split(" ")[0] in ("NoCancelFuture", "ProxyFuture") and not (("error_fn" in k or "error function" in k) and "no error_fn" not in k) and not k.endswith("all table rows reached") and "map_fn raises" not in k:
+            rep.ob("R-MIRROR", k, o.ok, o.detail, o.where, o.trace)
 
     # ---- operator table
     forwarded = 0
